@@ -40,6 +40,7 @@ CLASSES: dict = {
     "int_zero": (0, lambda r: 0),
     "int_pos": (3, lambda r: r.range(1, 1000)),
     "int_neg": (-2, lambda r: -r.range(1, 1000)),
+    "int_ts": (10**12, lambda r: r.range(10**12, 10**15)),  # a timestamp beyond year 9999; NEVER used as an allocation size
     "int_large": (2**62, lambda r: r.range(2**60, 2**63 - 1)),  # fits ssize_t; too big for any allocation, any calendar
     "int_big": (2**70, lambda r: r.range(2**64, 2**100)),  # exceeds ssize_t / C long, still converts to float
     "int_huge": (10**400, lambda r: 10 ** r.range(320, 2000) + r.below(1000)),  # float(int) overflows; str() is fine
@@ -55,6 +56,7 @@ CLASSES: dict = {
     "str_empty": ("", lambda r: ""),
     "str_int": ("42", lambda r: _digits(r, r.choice([1, 2, 3, 5]))),  # decimal digits, < 10**6: a valid timestamp
     "str_negint": ("-7", lambda r: "-" + _digits(r, r.choice([1, 2, 3]))),
+    "str_ts": ("1000000000000", lambda r: _digits(r, r.range(13, 16))),  # isdigit, int() lands in int_ts
     "str_bigdigits": ("2000000000000000000", lambda r: r.choice("2345678") + "".join(r.choice("0123456789") for _ in range(18))),  # isdigit, int() lands in int_large
     "str_hugeint": ("7" * 4400, lambda r: _digits(r, r.range(4301, 5000))),  # longer than MAX_STR_INT
     "str_float": ("3.5", lambda r: f"{r.range(1, 999)}.{r.range(1, 9)}5"),
@@ -66,6 +68,8 @@ CLASSES: dict = {
     "str_fmt_s": ("hello %(you)s", lambda r: f"{_other_word(r)} %({r.choice(['x', 'you', 'n'])})s"),
     "str_b64": ("aGVsbG8=", None),  # valid base64 of valid UTF-8 (set below)
     "str_b64_nonutf8": ("/w==", None),  # valid base64 of bytes that are not UTF-8
+    "str_nonascii": ("\u00fcn\u00ef", lambda r: _other_word(r) + r.choice(["\u00fc", "\u00e9", "\u4e2d", "\U0001f600"])),  # encodable, not ASCII
+    "str_surrogate": ("\ud800", lambda r: _other_word(r)[: r.below(4)] + r.choice(["\ud800", "\udfff", "\udc80"])),  # lone surrogate: not encodable as UTF-8
     "str_other": ("hello", _other_word),  # letters, len = 1 mod 4: never a number, date, or base64
     # containers
     "list_empty": ([], lambda r: []),
@@ -130,6 +134,8 @@ def classify(v) -> str:
             return "int_neg" if v >= -1000 else "int_other"
         if v <= 1000:
             return "int_pos"
+        if 10**12 <= v <= 10**15:
+            return "int_ts"
         if 2**60 <= v < 2**63:
             return "int_large"
         if 2**64 <= v <= 2**100:
